@@ -103,6 +103,9 @@ UNIT = dict(
     'stub detail::orphan constructor: stores target_epoch and takes over the NE list heads; orphan::delete_self deletes their nodes (orphan / deletable_object unit)',
     'stub deletable_object_impl::set_deleter: records the deleter for the node',
     'marked_ptr: get()/reset()/operator bool/== as proved in the marked_ptr unit (word model)',
+    'the registry (set of entries) does not change during one scan of try_update_epoch: an entry registered concurrently validates its local epoch against the global epoch by CAS and is therefore never at the previous epoch (composition argument, not decided here)',
+    'fewer than 2^32-16 nested regions/guards per thread (region_entries does not wrap)',
+    'thread_data is not used after its destructor ran (the destructor leaves the stale list heads in retire_lists; the orphan owns the nodes)',
     'INT rely for quiescent_state: while this thread is registered active with local epoch l the global epoch is l or l+1 (mod number_epochs) and other threads change it only from l to l+1; this is the invariant that qsbr.advance.keeps_invariant shows to be preserved by every advance',
   ],
   consts=[dict(name='XV_NUMBER_EPOCHS', file=H, regex=r'static constexpr unsigned number_epochs = ([^;]+);')],
@@ -193,7 +196,10 @@ UNIT = dict(
     dict(id='g_move_assign', entry='h_g_move_assign', cls='unbounded'),
     dict(id='g_swap', entry='h_g_swap', cls='unbounded'),
     dict(id='g_reset', entry='h_g_reset', cls='unbounded'),
-    dict(id='g_reclaim', entry='h_g_reclaim', cls='shape-complete', note='retire lists: any distribution of NP=6 nodes'),
+    dict(id='g_reclaim', entry='h_g_reclaim', cls='shape-complete', note='retire lists: any distribution of NP=4 nodes'),
+    dict(id='g_reclaim6', entry='h_g_reclaim', cls='shape-complete', tiers=['thorough'], defs={'NP': 6}),
+    dict(id='g_reclaim_composed', entry='h_g_reclaim_composed', cls='shape-complete', defs={'REAL_QS': 1}, unwindset=['qsbr_try_update_epoch.0:4'],
+         note='reclaim() on top of the real leave_region / quiescent_state / try_update_epoch'),
     dict(id='g_acquire', entry='h_g_acquire', cls='unbounded'),
     dict(id='g_acquire_int', entry='h_g_acquire', mode='INT', cls='unbounded'),
     dict(id='g_aie', entry='h_g_acquire_if_equal', cls='unbounded'),
@@ -207,6 +213,10 @@ UNIT = dict(
     dict(id='try_update_int', entry='h_try_update_int', mode='INT', cls='shape-complete', unwindset=['qsbr_try_update_epoch.0:4']),
     dict(id='quiescent', entry='h_quiescent', cls='shape-complete', unwindset=['qsbr_try_update_epoch.0:4']),
     dict(id='quiescent_int', entry='h_quiescent_int', mode='INT', cls='shape-complete', unwindset=['qsbr_try_update_epoch.0:4']),
+    dict(id='try_update_e4', entry='h_try_update', cls='shape-complete', tiers=['thorough'], defs={'E': 4}, unwindset=['qsbr_try_update_epoch.0:5'], note='registry of up to 4 entries'),
+    dict(id='quiescent_e4', entry='h_quiescent', cls='shape-complete', tiers=['thorough'], defs={'E': 4}, unwindset=['qsbr_try_update_epoch.0:5']),
+    dict(id='quiescent_int_e4', entry='h_quiescent_int', mode='INT', cls='shape-complete', tiers=['thorough'], defs={'E': 4}, unwindset=['qsbr_try_update_epoch.0:5']),
+    dict(id='retire6', entry='h_retire', cls='shape-complete', tiers=['thorough'], defs={'NP': 6}),
     dict(id='ensure', entry='h_ensure', cls='shape-complete', defs={'REAL_EHCB': 1}, note='validate loop cut by invariant EHCB; registry of up to E=3 entries'),
     dict(id='ensure_int', entry='h_ensure', mode='INT', cls='shape-complete', defs={'REAL_EHCB': 1}),
     dict(id='dtor', entry='h_dtor', cls='shape-complete'),
@@ -237,5 +247,5 @@ UNIT = dict(
   },
   replays={'qsbr.guard.region_balance': dict(src='replay_guard.cpp'), 'qsbr.guard.algebra': dict(src='replay_guard.cpp'),
            'qsbr.free.on_reentry': dict(src='replay_epoch.cpp'), 'qsbr.advance.all_quiescent': dict(src='replay_epoch.cpp')},
-  canaries=['adopt.full_chain', 'adopt.none', 'adopt.onto_nonempty', 'dtor.never_registered', 'dtor.nothing_pending', 'dtor.orphan', 'ensure.already', 'ensure.new', 'ensure.reused', 'enter.fresh', 'enter.registered', 'g_acquire.fresh', 'g_acquire.null_drop', 'g_acquire.replace', 'g_acquire.vanished', 'g_aie.changed', 'g_aie.false_drop', 'g_aie.true', 'g_aie.true_null', 'g_copy_assign.both', 'g_copy_assign.from_empty', 'g_copy_assign.into_empty', 'g_copy_assign.self', 'g_copy_ctor.nonnull', 'g_copy_ctor.null', 'g_ctor.nonnull', 'g_ctor.null', 'g_move_assign.both', 'g_move_assign.self', 'g_move_ctor.nonnull', 'g_reclaim.last', 'g_reclaim.nested', 'g_reset.dtor_nonnull', 'g_reset.nonnull', 'g_reset.null', 'g_swap.done', 'leave.nested', 'leave.outermost', 'quiescent.advanced', 'quiescent.blocked', 'quiescent.caught_up', 'quiescent.freed_nonempty', 'quiescent_int.advanced', 'quiescent_int.blocked', 'quiescent_int.caught_up', 'quiescent_int.lost_race', 'region_guard.done', 'retire.empty', 'retire.nonempty', 'try_update.advanced', 'try_update.already', 'try_update.blocked', 'try_update.exited_ignored', 'try_update.full_registry', 'try_update_int.advanced', 'try_update_int.blocked', 'try_update_int.lost_race'],
+  canaries=['adopt.full_chain', 'adopt.none', 'adopt.onto_nonempty', 'dtor.never_registered', 'dtor.nothing_pending', 'dtor.orphan', 'ensure.already', 'ensure.new', 'ensure.reused', 'enter.fresh', 'enter.registered', 'g_acquire.fresh', 'g_acquire.null_drop', 'g_acquire.replace', 'g_acquire.vanished', 'g_aie.changed', 'g_aie.false_drop', 'g_aie.true', 'g_aie.true_null', 'g_copy_assign.both', 'g_copy_assign.from_empty', 'g_copy_assign.into_empty', 'g_copy_assign.self', 'g_copy_ctor.nonnull', 'g_copy_ctor.null', 'g_ctor.nonnull', 'g_ctor.null', 'g_move_assign.both', 'g_move_assign.self', 'g_move_ctor.nonnull', 'g_reclaim.last', 'g_reclaim.nested', 'g_reclaim_composed.blocked', 'g_reclaim_composed.freed_next_epoch', 'g_reset.dtor_nonnull', 'g_reset.nonnull', 'g_reset.null', 'g_swap.done', 'leave.nested', 'leave.outermost', 'quiescent.advanced', 'quiescent.blocked', 'quiescent.caught_up', 'quiescent.freed_nonempty', 'quiescent_int.advanced', 'quiescent_int.blocked', 'quiescent_int.caught_up', 'quiescent_int.lost_race', 'region_guard.done', 'retire.empty', 'retire.nonempty', 'try_update.advanced', 'try_update.already', 'try_update.blocked', 'try_update.exited_ignored', 'try_update.full_registry', 'try_update_int.advanced', 'try_update_int.blocked', 'try_update_int.lost_race'],
 )
